@@ -243,14 +243,23 @@ class FixEndOfTrack(_TrackFn):
     loops = {(T + 'fix_end_of_track', 0): _FixLoop()}
 
     def ensures(self, h, cfg, a, r):
+        import mido.midifiles.tracks as TR
         if not h.sym:
-            return {'non-eot-messages-with-carried-deltas-then-one-eot': view_msgs(r) == ref_fix(h.track)}
+            again = list(TR.fix_end_of_track(list(h.track), skip_checks=cfg['skip_checks']))
+            return {'non-eot-messages-with-carried-deltas-then-one-eot': view_msgs(r) == ref_fix(h.track),
+                    'closing-end_of_track-is-a-new-message-on-every-call (never a shared object)': list(r)[-1] is not again[-1]}
         ek = spec_fns()
         s = V(h.track)
+        # a yielded value that is neither taken from the track nor built during this call is a pre-existing (module-level)
+        # object: every caller would share it, and an edit of one merged track would show up in all others
+        native = [y_ for y_ in r if not isinstance(y_, (SMsg, Obj))]
+        out = {'every-yielded-message-comes-from-the-track-or-is-new (no shared module-level object)': not native}
+        if native:
+            return out
         y = ghost_yielded(h, r)
         n = z3.Length(s)
-        return {'non-eot-messages-with-carried-deltas-then-one-eot':
-                y == z3.Concat(ek.FO(s, n), z3.Unit(eot(ek, ek.FA(s, n))))}
+        out['non-eot-messages-with-carried-deltas-then-one-eot'] = y == z3.Concat(ek.FO(s, n), z3.Unit(eot(ek, ek.FA(s, n))))
+        return out
 
     def call_site(self, ip, fn, args, kwargs):
         ek = spec_fns()
